@@ -125,6 +125,14 @@ CHECKS['C13'] = ('exploration',
          'and first-order agreement with the logarithm for |d| = 1e-9..1e-2.',
          'Bounded to the enumerated motions/twists; linear identities complete by linearity on basis grids.',
          'DESIGN.md 3/C13')
+CHECKS['C14'] = ('exploration',
+         'exhaustive product member x noise magnitude x noise pattern; direction x norm ladder x rotational-part ladder; angle letters and pairs',
+         'trnorm / trnorm2 / pose norm() on every generator member perturbed by four noise patterns at 1e-15..1e-2: validity, idempotence, fixed points, '
+         'kept translation, approach axis and plane of the second axis; unitvec, quaternion unit and the UnitQuaternion constructors, unittwist(_norm), '
+         'unittwist2(_norm), Twist3.unit, Twist2.unit over norms 1e-6..1e6 with the rotational part at 0 and on either side of the zero threshold; angdiff '
+         'over multiples of pi/2 +- ladders, +-1e3, generic angles, scalar and array forms.',
+         'Bounded to the enumerated letters. One recorded finding (non-idempotent unit twist across the absolute zero threshold) is listed in known_findings.txt.',
+         'DESIGN.md 3/C14')
 PENDING = {}
 
 def main():
